@@ -949,9 +949,10 @@ def check_C16(rep, tier):
 def check_C17(rep, tier):
     rep.cov["rule"] = ("Every document of the Wire.tla instance (rule token sequences incl. rejected ones, link / layout shape "
                        "descriptors as signed block, wrapper and bare metadata, predicate and statement field subsets) is parsed "
-                       "through 4 channels (str, byte slice, streaming reader, parsed JSON tree) x 3 spellings (as written, extra "
-                       "whitespace, every character \\uXXXX-escaped with members reversed); all 12 must agree with (str, as written) "
-                       "on accept / reject and on the value.  Non-trivial = accepted documents (value comparison).")
+                       "through 8 channels (serde_json str / byte slice / streaming reader / parsed JSON tree and the library's "
+                       "Json::from_slice / from_reader / deserialize, JsonPretty::from_reader) x 6 texts (as written, extra white space, "
+                       "every character \\uXXXX-escaped with members reversed, trailing garbage, two concatenated documents, truncated); "
+                       "all 48 must agree with the str channel on accept / reject and on the value.  Non-trivial = accepted documents (value comparison).")
 
     def judge(s, r, mk):
         if r.get("out") == "ok":
@@ -961,7 +962,7 @@ def check_C17(rep, tier):
             rep.mismatch({"kind": "channel_dependent", "doc": s["kind"], "detail": d[:60]}, mk)
 
     _wire(rep, tier, "C17", ("rule", "link", "layout", "pred", "stmt"), judge)
-    rep.cov["evaluations"] *= 12
+    rep.cov["evaluations"] *= 48
     rep.assumptions += ["serde_json's four entry points are the channels; escape spelling produced by the harness writer"]
 
 
@@ -1045,6 +1046,8 @@ def check_C18(rep, tier):
         if o == "panic":
             rep.mismatch({"kind": "panic"}, mk)
             continue
+        if r.get("order_dependent"):
+            rep.mismatch({"kind": "depends_on_order_of_strip_prefixes"}, mk)
         if out == "err":
             if o != "err":
                 rep.mismatch({"kind": "collision_not_reported"}, mk)
